@@ -24,11 +24,28 @@
 (* the machines is bounded by "what is in the kernel" and "what the        *)
 (* machine asks for", a write racing with a wake-up is the same as a       *)
 (* different segmentation.                                                 *)
+(*                                                                         *)
+(* Readiness is edge-triggered (mio): `fev` is the READABLE event latched  *)
+(* for the front socket.  It is set when bytes arrive and cleared only by  *)
+(* a read that hits would-block; a machine reads only while it is          *)
+(* interested AND the event is latched.  The latched event is the one and  *)
+(* only notification for bytes that arrived while a machine was not        *)
+(* reading (header already parsed, backend not yet writable): it has to    *)
+(* survive the switch to the pipe ("Remember to set the events from the    *)
+(* previous State!", Pipe::new).                                           *)
+(*                                                                         *)
+(* Backend connection (SlowConnect = TRUE): the backend starts to accept   *)
+(* connections (`conn` = "up") at an arbitrary point of the client's       *)
+(* schedule (environment action Backend_Up); until then sozu's connect()   *)
+(* stays pending and nothing can be written to the backend.                *)
 (***************************************************************************)
 EXTENDS Integers, Sequences, FiniteSets, TLC, Json
 
 CONSTANTS Deviations,  \* subset of DevNames: code behaviours that deviate from the property
-          TlvLens,     \* lengths of the TLV tail, e.g. {0, 1, 24, 25, 200, 217}
+          TlvLens,     \* lengths of the TLV tail (applied to every family), e.g. {0, 1}
+          HdrLens,     \* TOTAL header lengths: for every family the TLV tail that makes the header exactly that long
+                       \* (16 + address block + tail; lengths the family cannot reach are skipped)
+          SlowConnect, \* TRUE: the backend accepts connections only from some point of the schedule on
           Payloads,    \* payload lengths, e.g. {0, 3}
           MaxSeg,      \* the client splits its stream into at most MaxSeg segments
           CutMode,     \* "all": a segment may end anywhere; "edges": only near field/window boundaries
@@ -38,8 +55,12 @@ CONSTANTS Deviations,  \* subset of DevNames: code behaviours that deviate from 
 DevNames == {"ExpectOverRead",  \* old reader: fixed windows 28 -> 52 -> 232, over-read bytes dropped at the upgrade
              "ExpectPanic",     \* old tcp.rs: backend connection attempted while in the expect state: worker panics
              "RelayWedge",      \* old relay.rs: buffer consumed after parsing; back_writable spins forever
-             "UnixRejected"}    \* parser.rs: AF_UNIX family is a parse error (open finding)
+             "UnixRejected",    \* parser.rs: AF_UNIX family is a parse error (open finding)
+             \* self-test switches (defect classes the check must be able to see; TLC must refute each):
+             "ExpectMaxRefused",     \* expect.rs: one of the two checks of the size limit says >= : 232 bytes are "oversized"
+             "SwitchDropsReadable"}  \* into_pipe: the latched READABLE event of the front socket is not handed to the pipe
 ASSUME Deviations \subseteq DevNames
+ASSUME SlowConnect \in BOOLEAN
 
 Min(a, b) == IF a < b THEN a ELSE b
 Max(a, b) == IF a > b THEN a ELSE b
@@ -62,7 +83,11 @@ Fixed == 16        \* signature(12) ver_cmd(1) fam(1) len(2)
 \*   badsig(bad = p): byte p of the signature is wrong     badver: version nibble is 1
 \*   badcmd: command nibble is 2                           badfam: family nibble is 4
 \*   shortlen: INET family but declared length 4 (< 12)
+\* TLV tails: the family-independent ones (both commands), and for the PROXY command those that give one
+\* of the total lengths HdrLens (the command nibble plays no role in the length handling)
+LenTlvs(f) == { n - Fixed - AddrLen(f) : n \in { m \in HdrLens : m >= Fixed + AddrLen(f) } }
 OkHdrs == [kind : {"ok"}, cmd : Cmds, fam : Fams, tlv : TlvLens, bad : {0}]
+          \cup UNION { [kind : {"ok"}, cmd : {"PROXY"}, fam : {f}, tlv : LenTlvs(f), bad : {0}] : f \in Fams }
 BadHdrs == { [kind |-> "badsig", cmd |-> "PROXY", fam |-> "INET", tlv |-> 0, bad |-> p] : p \in {1, 12} }
            \cup { [kind |-> k, cmd |-> "PROXY", fam |-> "INET", tlv |-> 0, bad |-> 0] :
                     k \in {"badver", "badcmd", "badfam", "shortlen"} }
@@ -153,15 +178,19 @@ VARIABLES mode,     \* "send" | "expect" | "relay"
           written,  \* bytes of the client stream written so far
           nseg,     \* segments written so far
           inK,      \* bytes in the kernel not yet read by sozu
+          fev,      \* the READABLE event of the front socket is latched (edge-triggered readiness)
+          conn,     \* "pending" | "up": the backend accepts connections (sozu's connect() can complete)
           st,       \* "hdr" | "fwd" | "send" | "pipe" | "closed" | "panic" | "wedged"
           index,    \* expect/relay: bytes accumulated in the staging buffer
           stage,    \* expect (old reader only): current window 28 | 52 | 232
           cursor,   \* send: bytes of the generated header already written
           rd,       \* client stream bytes taken out of the kernel so far
+          pb,       \* pipe: bytes read from the client and not yet written to the backend (positions rd-pb+1..rd)
           bk,       \* backend stream
-          segs      \* history: segment lengths (generator)
+          segs,     \* history: segment lengths (generator)
+          upAt      \* history: segments written before the backend accepted (generator)
 
-vars == <<mode, hdr, sfam, pay, written, nseg, inK, st, index, stage, cursor, rd, bk, segs>>
+vars == <<mode, hdr, sfam, pay, written, nseg, inK, fev, conn, st, index, stage, cursor, rd, pb, bk, segs, upAt>>
 
 L == IF mode = "send" THEN 0 ELSE HLen(hdr)     \* header bytes in the client stream
 N == L + pay                                    \* client stream length
@@ -175,20 +204,29 @@ RunSeq(a, b) == AppendRun(<<>>, a, b)
 NoBytes == [g |-> 0, c |-> <<>>]
 
 \* positions after which a segment may end
+\*   "all"  : anywhere          "edges": near field / window boundaries, around the end of the header
+\*   "hdr"  : only right after the header (and at the end of the stream): the cheap sweep over all lengths
 EdgeSet == {1, 11, 12, 13, 15, 16, 17, 27, 28, 29, 51, 52, 53, 231, 232, 233}
-CutOK(p) == CutMode = "all" \/ p \in EdgeSet \/ (p >= L - 1 /\ p <= L + 2) \/ p = N
+CutOK(p) == \/ CutMode = "all"
+            \/ CutMode = "edges" /\ (p \in EdgeSet \/ (p >= L - 1 /\ p <= L + 2))
+            \/ CutMode = "hdr" /\ p = L
+            \/ p = N
 
 Init ==
   /\ mode \in Modes
   /\ hdr \in (IF mode = "send" THEN {SendHdr("INET")} ELSE Hdrs)
   /\ sfam \in (IF mode = "send" THEN {"INET", "INET6"} ELSE {"INET"})
   /\ pay \in Payloads
-  /\ written = 0 /\ nseg = 0 /\ inK = 0
+  /\ written = 0 /\ nseg = 0 /\ inK = 0 /\ fev = FALSE
+  /\ conn = (IF SlowConnect THEN "pending" ELSE "up")
   /\ st = (IF mode = "send" THEN "send" ELSE "hdr")
-  /\ index = 0 /\ stage = 28 /\ cursor = 0 /\ rd = 0
-  /\ bk = NoBytes /\ segs = <<>>
+  /\ index = 0 /\ stage = 28 /\ cursor = 0 /\ rd = 0 /\ pb = 0
+  /\ bk = NoBytes /\ segs = <<>> /\ upAt = 0
 
 Live == st \notin {"closed", "panic", "wedged"}
+
+\* the event the pipe inherits at the switch: the one the previous state holds
+Inherit(e) == IF "SwitchDropsReadable" \in Deviations THEN FALSE ELSE e
 
 \* ---- sozu steps -----------------------------------------------------------
 
@@ -197,97 +235,125 @@ Live == st \notin {"closed", "panic", "wedged"}
 Expect_PanicOnConnect ==
   /\ "ExpectPanic" \in Deviations /\ mode = "expect" /\ st = "hdr" /\ written > 0
   /\ st' = "panic"
-  /\ UNCHANGED <<mode, hdr, sfam, pay, written, nseg, inK, index, stage, cursor, rd, bk, segs>>
+  /\ UNCHANGED <<mode, hdr, sfam, pay, written, nseg, inK, fev, conn, index, stage, cursor, rd, pb, bk, segs, upAt>>
 
 \* expect.rs readable(): one socket_read into frontend_buffer[index..window], then parse.
+\* socket_read stops when the slice is full (event stays latched) or at would-block (event cleared).
 Window == IF "ExpectOverRead" \in Deviations THEN stage
           ELSE IF index < Fixed THEN Fixed ELSE HLen(hdr)
+\* the size check done before each read stage (first of the two checks of the same limit)
+TooLongAtEntry == index >= Fixed /\ (IF "ExpectMaxRefused" \in Deviations THEN HLen(hdr) >= MaxHeader ELSE Oversized(hdr))
 Expect_Readable ==
-  /\ mode = "expect" /\ st = "hdr" /\ inK > 0
-  /\ LET w   == Window
+  /\ mode = "expect" /\ st = "hdr" /\ fev
+  /\ IF ~("ExpectOverRead" \in Deviations) /\ TooLongAtEntry
+     THEN \* "exceeds maximum size (232 bytes)": closed before anything more is read
+          /\ st' = "closed"
+          /\ UNCHANGED <<index, inK, rd, stage, fev>>
+     ELSE
+     LET w   == Window
          n   == Min(inK, w - index)
          idx == index + n
          v   == Parse(hdr, idx)
+         nst == IF "ExpectOverRead" \in Deviations
+                THEN \* fixed windows; `rest` (bytes read beyond the header) is dropped by into_pipe
+                     CASE v = "ok" -> "pipe" [] v = "err" -> "closed"
+                       [] v = "inc" /\ idx = 232 -> "closed"    \* "header exceeds maximum size"
+                       [] OTHER -> "hdr"
+                ELSE \* self-describing read: 16 bytes, then exactly the declared length
+                     CASE v = "ok" -> "pipe" [] v = "err" -> "closed"
+                       [] idx >= Fixed /\ Oversized(hdr) -> "closed"      \* declared length does not fit (second check)
+                       [] idx >= Fixed /\ idx = HLen(hdr) -> "closed"      \* all declared bytes, still incomplete
+                       [] OTHER -> "hdr"
+         ev  == (n = w - index) /\ n > 0        \* slice filled: no would-block seen, the event stays
      IN /\ index' = idx /\ inK' = inK - n /\ rd' = rd + n
-        /\ IF "ExpectOverRead" \in Deviations
-           THEN \* fixed windows; `rest` (bytes read beyond the header) is dropped by into_pipe
-                /\ stage' = IF v = "inc" /\ idx = stage /\ stage < 232 THEN (IF stage = 28 THEN 52 ELSE 232) ELSE stage
-                /\ st' = CASE v = "ok" -> "pipe" [] v = "err" -> "closed"
-                           [] v = "inc" /\ idx = 232 -> "closed"    \* "header exceeds maximum size"
-                           [] OTHER -> "hdr"
-           ELSE \* self-describing read: 16 bytes, then exactly the declared length
-                /\ stage' = stage
-                /\ st' = CASE v = "ok" -> "pipe" [] v = "err" -> "closed"
-                           [] idx >= Fixed /\ Oversized(hdr) -> "closed"      \* declared length does not fit
-                           [] idx >= Fixed /\ idx = HLen(hdr) -> "closed"      \* all declared bytes, still incomplete
-                           [] OTHER -> "hdr"
-  /\ UNCHANGED <<mode, hdr, sfam, pay, written, nseg, cursor, bk, segs>>
+        /\ stage' = IF "ExpectOverRead" \in Deviations /\ v = "inc" /\ idx = stage /\ stage < 232
+                    THEN (IF stage = 28 THEN 52 ELSE 232) ELSE stage
+        /\ st' = nst
+        /\ fev' = IF nst = "pipe" THEN Inherit(ev) ELSE ev
+  /\ UNCHANGED <<mode, hdr, sfam, pay, written, nseg, conn, cursor, pb, bk, segs, upAt>>
 
-\* relay.rs readable(): reads everything into the session buffer (16 KiB >> N), then parse.
+\* relay.rs readable(): reads everything into the session buffer (16 KiB >> N) until would-block, then
+\* parse. Once the header is parsed the machine stops reading (READABLE leaves the interest).
 Relay_Readable ==
-  /\ mode = "relay" /\ st = "hdr" /\ inK > 0
+  /\ mode = "relay" /\ st = "hdr" /\ fev
   /\ LET idx == index + inK
          v   == Parse(hdr, idx)
-     IN /\ index' = idx /\ inK' = 0 /\ rd' = rd + inK
+     IN /\ index' = idx /\ inK' = 0 /\ rd' = rd + inK /\ fev' = FALSE
         /\ st' = CASE v = "ok" -> (IF "RelayWedge" \in Deviations THEN "wedged" ELSE "fwd")
                    [] v = "err" -> "closed"
                    [] OTHER -> "hdr"
-  /\ UNCHANGED <<mode, hdr, sfam, pay, written, nseg, stage, cursor, bk, segs>>
+  /\ UNCHANGED <<mode, hdr, sfam, pay, written, nseg, conn, stage, cursor, pb, bk, segs, upAt>>
 
-\* relay.rs back_writable(): the buffer (header and whatever was read with it) goes out verbatim.
+\* relay.rs back_writable(): the buffer (header and whatever was read with it) goes out verbatim;
+\* needs the backend connection. Then the upgrade: into_pipe hands the latched front event over.
 Relay_BackWritable ==
-  /\ mode = "relay" /\ st = "fwd"
+  /\ mode = "relay" /\ st = "fwd" /\ conn = "up"
   /\ bk' = [bk EXCEPT !.c = AppendRun(@, 1, index)]
-  /\ st' = "pipe"
-  /\ UNCHANGED <<mode, hdr, sfam, pay, written, nseg, inK, index, stage, cursor, rd, segs>>
+  /\ st' = "pipe" /\ fev' = Inherit(fev)
+  /\ UNCHANGED <<mode, hdr, sfam, pay, written, nseg, inK, conn, index, stage, cursor, rd, pb, segs, upAt>>
 
 \* send.rs back_writable(): the generated header, possibly in several partial writes; the front
-\* socket is not read before the header is out.
+\* socket is not read before the header is out (what arrives meanwhile is only latched in `fev`).
 SendCuts == {1, 12, 16, GLen - 1}
 Send_BackWritable(k) ==
-  /\ mode = "send" /\ st = "send"
+  /\ mode = "send" /\ st = "send" /\ conn = "up"
   /\ k >= 1 /\ cursor + k <= GLen
   /\ (cursor + k = GLen \/ cursor + k \in SendCuts)
   /\ bk' = [bk EXCEPT !.g = @ + k]
   /\ cursor' = cursor + k
   /\ st' = IF cursor' = GLen THEN "pipe" ELSE "send"
-  /\ UNCHANGED <<mode, hdr, sfam, pay, written, nseg, inK, index, stage, rd, segs>>
+  /\ fev' = IF cursor' = GLen THEN Inherit(fev) ELSE fev
+  /\ UNCHANGED <<mode, hdr, sfam, pay, written, nseg, inK, conn, index, stage, rd, pb, segs, upAt>>
 
-\* pipe.rs readable() + backend_writable(): what is in the kernel goes to the backend.
-Pipe_Forward ==
-  /\ st = "pipe" /\ inK > 0
-  /\ bk' = [bk EXCEPT !.c = AppendRun(@, rd + 1, rd + inK)]
-  /\ rd' = rd + inK /\ inK' = 0
-  /\ UNCHANGED <<mode, hdr, sfam, pay, written, nseg, st, index, stage, cursor, segs>>
+\* pipe.rs readable(): what is in the kernel goes into the session buffer (until would-block) ...
+Pipe_Read ==
+  /\ st = "pipe" /\ fev
+  /\ rd' = rd + inK /\ pb' = pb + inK /\ inK' = 0 /\ fev' = FALSE
+  /\ UNCHANGED <<mode, hdr, sfam, pay, written, nseg, conn, st, index, stage, cursor, bk, segs, upAt>>
+\* ... and backend_writable(): from there to the backend, once the connection is there
+Pipe_Write ==
+  /\ st = "pipe" /\ pb > 0 /\ conn = "up"
+  /\ bk' = [bk EXCEPT !.c = AppendRun(@, rd - pb + 1, rd)]
+  /\ pb' = 0
+  /\ UNCHANGED <<mode, hdr, sfam, pay, written, nseg, inK, fev, conn, st, index, stage, cursor, rd, segs, upAt>>
+Pipe_Forward == Pipe_Read \/ Pipe_Write
 
 Send_Step == \E k \in {GLen - cursor} \cup {c - cursor : c \in SendCuts} : Send_BackWritable(k)
 SozuStep == Expect_PanicOnConnect \/ Expect_Readable \/ Relay_Readable \/ Relay_BackWritable \/ Send_Step \/ Pipe_Forward
 
 \* ---- environment ------------------------------------------------------------
 \* sozu is parked in epoll: no step of the session is enabled (explicit form of ~ENABLED SozuStep)
-Parked == /\ ~(st = "hdr" /\ inK > 0 /\ mode \in {"expect", "relay"})
+Parked == /\ ~(st = "hdr" /\ fev /\ mode \in {"expect", "relay"})
           /\ ~("ExpectPanic" \in Deviations /\ mode = "expect" /\ st = "hdr" /\ written > 0)
-          /\ st \notin {"fwd", "send"}
-          /\ ~(st = "pipe" /\ inK > 0)
+          /\ ~(st \in {"fwd", "send"} /\ conn = "up")
+          /\ ~(st = "pipe" /\ fev)
+          /\ ~(st = "pipe" /\ pb > 0 /\ conn = "up")
 
 Client_Write(k) ==
   /\ Live /\ Parked /\ nseg < MaxSeg /\ k >= 1 /\ written + k <= N
   /\ (nseg = MaxSeg - 1 => written + k = N)     \* the last segment carries the rest
   /\ CutOK(written + k)
   /\ written' = written + k /\ inK' = inK + k /\ nseg' = nseg + 1
+  /\ fev' = TRUE                                \* new bytes: one edge
   /\ segs' = Append(segs, k)
-  /\ UNCHANGED <<mode, hdr, sfam, pay, st, index, stage, cursor, rd, bk>>
+  /\ UNCHANGED <<mode, hdr, sfam, pay, conn, st, index, stage, cursor, rd, pb, bk, upAt>>
+
+\* the backend starts accepting: sozu's pending connect() completes (or the next one does)
+Backend_Up ==
+  /\ conn = "pending" /\ Live /\ Parked
+  /\ conn' = "up" /\ upAt' = nseg
+  /\ UNCHANGED <<mode, hdr, sfam, pay, written, nseg, inK, fev, st, index, stage, cursor, rd, pb, bk, segs>>
 
 \* front_timeout fires on a session that is still waiting for its header
 Timeout ==
   /\ st = "hdr" /\ Parked /\ written = N
   /\ st' = "closed"
-  /\ UNCHANGED <<mode, hdr, sfam, pay, written, nseg, inK, index, stage, cursor, rd, bk, segs>>
+  /\ UNCHANGED <<mode, hdr, sfam, pay, written, nseg, inK, fev, conn, index, stage, cursor, rd, pb, bk, segs, upAt>>
 
 ClientStep == Live /\ Parked /\ \E p \in (written + 1)..N : Client_Write(p - written)
-Next == SozuStep \/ ClientStep \/ Timeout
+Next == SozuStep \/ ClientStep \/ Backend_Up \/ Timeout
 Spec == Init /\ [][Next]_vars
-FairSpec == Spec /\ WF_vars(SozuStep) /\ WF_vars(Timeout) /\ WF_vars(ClientStep)
+FairSpec == Spec /\ WF_vars(SozuStep) /\ WF_vars(Timeout) /\ WF_vars(ClientStep) /\ WF_vars(Backend_Up)
 
 ---------------------------------------------------------------------------
 (* Properties (C18, header part)                                           *)
@@ -310,8 +376,9 @@ IsPrefixOf(b, e) == /\ b.g <= e.g
                     /\ (b.c # <<>> => b.g = e.g)     \* no payload byte before the generated header is complete
                     /\ RunsPrefix(b.c, e.c)
 
-TypeOK == /\ written \in 0..N /\ inK \in 0..N /\ rd + inK = written
+TypeOK == /\ written \in 0..N /\ inK \in 0..N /\ rd + inK = written /\ pb \in 0..rd
           /\ index \in 0..MaxHeader + 260 /\ cursor \in 0..GLen
+          /\ fev \in BOOLEAN /\ conn \in {"pending", "up"} /\ upAt \in 0..MaxSeg
 
 \* safety: at every moment the backend stream is a prefix of the expected one: exactly one header
 \* first (send/relay), nothing reordered, duplicated, or skipped, nothing at all for bad headers
@@ -323,7 +390,7 @@ P_C18_WorkerSurvives == st \notin {"panic", "wedged"}
 \* completeness at rest: when the client has written everything and sozu is parked, the backend has
 \* everything (NO payload byte lost to the header reader), or the session is closed/waiting if the
 \* header is not acceptable
-Rest == written = N /\ Parked
+Rest == written = N /\ Parked /\ conn = "up"
 P_C18_CompleteAtRest ==
   Rest => IF mode = "send" \/ Acceptable(mode, hdr)
           THEN bk = Expected /\ st = "pipe"
@@ -339,11 +406,12 @@ P_C18_Header == P_C18_BackendPrefix /\ P_C18_WorkerSurvives /\ P_C18_CompleteAtR
 (* segments and what the spec predicts at the backend; plus, once, the     *)
 (* codec table: concrete bytes of every class and the parser verdicts.     *)
 
-Finished == (written = N /\ Parked) \/ ~Live
+Finished == (written = N /\ Parked /\ conn = "up") \/ ~Live
 EmitBehaviour ==
   (Emit /\ Finished /\ ~ENABLED Timeout) =>
      PrintT(<<"REPLAY", ToJson([kind |-> "beh", mode |-> mode, hdr |-> hdr, sfam |-> sfam, pay |-> pay,
-                                segs |-> segs, g |-> bk.g, c |-> bk.c, st |-> st,
+                                segs |-> segs, upAt |-> (IF SlowConnect /\ conn = "up" THEN upAt ELSE 0),
+                                slowc |-> SlowConnect, g |-> bk.g, c |-> bk.c, st |-> st,
                                 closes |-> (st = "closed" \/ (st = "hdr" /\ written = N)),
                                 slow |-> (st = "closed" /\ mode = "relay" /\ Parse(hdr, index) = "inc"),   \* closed by the front timeout
                                 hlen |-> L])>>)
